@@ -156,6 +156,91 @@ class Seq:
                                   for s in self.segs) + "]"
 
 
+def subst_value(v, ivar, term):
+    """instantiate a generic element value at a concrete / Skolem index"""
+    from .sym import SId
+    tv = type(v)
+    if tv is SId:
+        return SId(z3.substitute(v.t, (ivar, term)))
+    if tv is SInt:
+        return SInt(z3.substitute(v.t, (ivar, term)))
+    if tv is SBool:
+        return lift(z3.substitute(v.t, (ivar, term)))
+    if tv in (tuple, list):
+        return tv(subst_value(x, ivar, term) for x in v)
+    if tv is Cases:
+        return Cases([(z3.substitute(c, (ivar, term)), subst_value(x, ivar, term)) for c, x in object.__getattribute__(v, "_pairs")])
+    if tv.__name__ == "AbsNode":
+        return tv(v._fam, z3.substitute(v._idx, (ivar, term)) if not isinstance(v._idx, int) else v._idx)
+    d = getattr(v, "__dict__", None)
+    if isinstance(d, dict) and tv.__module__.startswith("puan"):
+        o = object.__new__(tv)
+        for k, x in d.items():
+            o.__dict__[k] = subst_value(x, ivar, term)
+        return o
+    return v
+
+
+class SeqDict:
+    """dict(zip(keys, values)) over aligned abstract sequences (same base): lookup by a witness index.
+
+    d[key]: the key must occur (otherwise KeyError, decided by branching on the count fold); the value is the
+    value element at a Skolem index w with  key(w) == key  and no later occurrence (dict: last writer wins)."""
+    _pyvc_proxy = True
+
+    def __init__(self, keys, vals):
+        ks, vs = to_seq(keys), to_seq(vals)
+        if len(ks.segs) != 1 or len(vs.segs) != 1 or not isi(ks.segs[0], Gen) or not isi(vs.segs[0], Gen) \
+                or ks.segs[0].base is not vs.segs[0].base or not ks.segs[0].guard.eq(vs.segs[0].guard):
+            raise Unsupported("dict(zip()) over abstract sequences that are not aligned segments of one base")
+        self.kgen, self.vgen = ks.segs[0], vs.segs[0]
+
+    @property
+    def __class__(self):
+        return dict
+
+    def _has(self, key):
+        return seq_any(Seq([self.kgen]), lambda k: k == key)
+
+    def __contains__(self, key):
+        return self._has(key)
+
+    def _lookup(self, key):
+        from .sym import fresh_name
+        c = ctx()
+        base = self.kgen.base
+        memo = c.__dict__.setdefault("_seqdict_w", {})
+        mk = (id(self), repr(getattr(key, "t", key)))
+        if mk not in memo:
+            w = z3.Int(fresh_name(f"w.{base.name}"))
+            c.index_terms.setdefault(base.name, []).append(w)
+            kw = subst_value(self.kgen.elem, base.ivar, w)
+            c.assume_global(z3.And(base.inrange(w), z3.substitute(self.kgen.guard, (base.ivar, w)), to_bterm(kw == key)))
+            # no later occurrence of the key
+            later = local_paths(lambda: self.kgen.elem == key, assumptions=[base.inrange(), self.kgen.guard])
+            c.add_pointwise(base.ivar, z3.Implies(z3.And(base.ivar > w, self.kgen.guard), z3.Not(to_bterm(merge(later)))))
+            c._cache.clear()
+            memo[mk] = w
+        w = memo[mk]
+        return subst_value(self.vgen.elem, base.ivar, w)
+
+    def __getitem__(self, key):
+        if self._has(key):
+            return self._lookup(key)
+        raise KeyError(key)
+
+    def get(self, key, default=None):
+        if self._has(key):
+            return self._lookup(key)
+        return default
+
+    def __len__(self):
+        raise Unsupported("len of a dictionary over abstract sequences")
+
+    def __iter__(self):
+        raise Unsupported("iteration over a dictionary over abstract sequences")
+
+
 def has_abstract(x):
     if isi(x, Seq):
         return x.abstract
@@ -664,7 +749,7 @@ class SigmaTheory:
                 used |= _fold_syms(f, symids)
             rel = {symids[i]: folds[symids[i]] for i in used}
             if rel:
-                pwk = self._pw_key(c)
+                pwk = self._pw_key(c) + "|" + _h("|".join(str(k) for ks in c.index_terms.values() for k in ks))
                 relset = frozenset(rel.keys())
                 hit = None
                 for (ks, pk2), facts in self._memo.items():
@@ -766,6 +851,10 @@ class SigmaTheory:
                         expr = expr + cf * B(u)
                     s0 = sums[sym.get_id()]
                     sums[sym.get_id()] = (sym, s0[1] + expr)
+                # a registered index term that lies in this region makes the region non-empty
+                for k in c.index_terms.get(bname, []):
+                    inst = [z3.substitute(l, (J, k)) for l in lits]
+                    facts.append(z3.Implies(z3.And(base.inrange(k), *inst), C >= 1))
                 if not basis:
                     continue
                 known = set(basis.keys())
